@@ -117,9 +117,15 @@ def get_ranges(headervalue, content_length):
             # recipient ignore the whole Range header field.
             return None
         if start:
-            if not stop:
-                stop = content_length - 1
-            start, stop = list(map(int, (start, stop)))
+            start = int(start)
+            if stop and int(stop) < start:
+                # From rfc 2616 sec 14.16:
+                # "If the server ignores a byte-range-spec because it
+                # is syntactically invalid, the server SHOULD treat
+                # the request as if the invalid Range header field
+                # did not exist. (Normally, this means return a 200
+                # response containing the full entity)."
+                return None
             if start >= content_length:
                 # From rfc 2616 sec 14.16:
                 # "If the server receives a request (other than one
@@ -130,20 +136,12 @@ def get_ranges(headervalue, content_length):
                 # resource), it SHOULD return a response code of 416
                 # (Requested range not satisfiable)."
                 continue
-            if stop < start:
-                # From rfc 2616 sec 14.16:
-                # "If the server ignores a byte-range-spec because it
-                # is syntactically invalid, the server SHOULD treat
-                # the request as if the invalid Range header field
-                # did not exist. (Normally, this means return a 200
-                # response containing the full entity)."
-                return None
             # From rfc 7233 sec 2.1:
-            # "If the last-byte-pos value is [...] greater than or equal
-            # to the current length of the representation data, the
-            # byte range is interpreted as the remainder of the
-            # representation."
-            stop = min(stop, content_length - 1)
+            # "If the last-byte-pos value is absent, or if the value is
+            # greater than or equal to the current length of the
+            # representation data, the byte range is interpreted as the
+            # remainder of the representation."
+            stop = min(int(stop), content_length - 1) if stop else content_length - 1
             # Prevent duplicate ranges. See Issue #59
             if (start, stop + 1) not in result:
                 result.append((start, stop + 1))
